@@ -3,6 +3,9 @@
 T-gen : Gen/Schemas.v (input schemas, default_short_configuration_input; translator gen_schemas)
         and Gen/InputFlow.v (mandatory attribute set, `images` list, call lists of main /
         check_conf; translator gen_inputs).  Per-run obligations in Props/C17.v.
+        and Gen/CheckFns.v (the nine small check functions of check_configuration.py and the custom-checking tail of check_input_section
+        translated statement by statement over Model/CheckPrims.v; translator gen_check_fns; generated = model proved for all inputs in
+        Proofs/CheckGenP.v, headline theorems restated on the generated functions in Props/C17.v).
 T-corr: Model/DatasetCheck.v (fid 1) against the real check_configuration.check_datasets on
         in-memory xarray datasets; Model/InputCheck.v (fid 2) against the real
         check_configuration.check_input_section on rasters written by the harness (outcome, class
@@ -25,7 +28,7 @@ import xarray as xr
 
 from harness import core, jsonwire
 
-GEN = ["gen_schemas", "gen_inputs"]
+GEN = ["gen_schemas", "gen_inputs", "gen_check_fns"]
 EXTRACT_FILES = ["X17"]
 DRIVERS = ["x17"]
 RULE = ("dataset stream: a case = a left/right pair of in-memory xarray datasets described by (image shape 1..5 x "
@@ -52,10 +55,16 @@ ASSUMES = [
     "code (numpy comparison) -- theorem C17_check_datasets_iff_wellformed states exactly that",
     "JSON booleans inside the interval form ([true, 3]) are outside the property's vocabulary (isinstance(True, int) "
     "makes the [int, int] schema accept them); excluded by the guard interval_bool_free and skipped by the spec check",
+    "a dataset is a mapping (py_dataset): its variable names are unique and only the image / disparity variables are "
+    "called 'im' / 'disparity' -- the hypothesis of the equalities generated = model on datasets; a raster file is its "
+    "width, height and the samples of every band (rfile), of which the model's file oracle is the abstraction finfo_of",
     "user dictionaries have distinct keys (Python dict); paths named 'NaN', 'inf', '-inf' are converted by "
     "update_conf before the check and therefore refused",
 ]
 TRUSTED = ["translator/gen_schemas.py and translator/gen_inputs.py (Gen/Schemas.v, Gen/InputFlow.v)",
+           "translator/gen_check_fns.py (Gen/CheckFns.v) and the primitives of coq/Model/CheckPrims.v it translates into "
+           "(xarray Dataset as a name -> variable mapping, .coords / .sel on the band_disp index, numpy isnan / all / any / "
+           "elementwise >, Python len / [] / < / in on configuration values, rasterio width / height / count / read(k))",
            "harness/jsonwire.py (JSON <-> wire), the dataset abstraction function of harness/props/c17.py"]
 
 FIVE = ["no_data_img", "valid_pixels", "no_data_mask", "crs", "transform"]
@@ -920,6 +929,21 @@ def run(ctx):
         "C17_schema_history_free: 9 + 9 equalities on the regenerated schemas (vm_compute)",
         "C17_input_completion: evaluated on the regenerated default_short_configuration_input",
         "C17_refusal_before_matching / C17_input_checked_first: positions in Gen.InputFlow.calls_main / calls_check_conf",
+        "C17_gen_check_dataset_eq / C17_gen_check_datasets_eq: Gen.CheckFns.check_dataset / check_datasets (regenerated, "
+        "statement by statement) = Model.DatasetCheck.check_dataset / check_datasets for every dataset that is a mapping",
+        "C17_gen_dataset_helpers_eq: Gen.CheckFns.check_shape / check_attributes / check_band_names / "
+        "check_disparities_from_dataset (regenerated) = their models, all inputs",
+        "C17_gen_check_disparities_from_input_eq: Gen.CheckFns.check_disparities_from_input (regenerated) = the model "
+        "on the abstraction of the files, for every configuration value and every file system of rasters",
+        "C17_gen_check_images_eq / C17_gen_check_image_dimension_eq: Gen.CheckFns.check_images / check_image_dimension "
+        "(regenerated; order of the reads, the loop over mask / classif / segm, both sides) = the model, all inputs",
+        "C17_gen_check_input_section_custom_eq: the statements of check_input_section after checker.validate(cfg) "
+        "(regenerated: which custom check on which values of the completed configuration, in which order) = the tail of "
+        "the model; C17_check_completed_is_validation_then_custom: the model is its validation part then that tail",
+        "C17_gen_check_datasets_iff_wellformed / C17_gen_interval_length_checked / C17_gen_check_completed_iff_documented: "
+        "the three headline theorems restated on the regenerated functions",
+        "translator gen_check_fns: the nine names, rasterio_open, np, xr are bound once at module level the expected way "
+        "and img_tools.rasterio_open is the plain rasterio.open wrapper (fail closed otherwise)",
     ]
     files = Files()
     try:
